@@ -1380,7 +1380,7 @@ def add_invariant_checks(cls: ClassT) -> None:
             # from a base class with invariants). Otherwise, we would copy the inherited function into the class
             # and thus change the method resolution order in case of multiple inheritance.
             if wrapper is not init_func:
-                setattr(cls, init_func.__name__, wrapper)
+                setattr(cls, "__init__", wrapper)
 
     for name, func in names_funcs:
         wrapper = _decorate_with_invariants(func=func, is_init=False)
